@@ -1197,6 +1197,55 @@ pub(crate) use impl_shadow;
 #[rustfmt::skip]
 pub(crate) use impl_wrapper;
 
+/// Used by the derive macro where a type becomes an operand of `&`: `A & B | C` is read as
+/// `(A & B) | C`, so a union has to be put in parentheses first. Everything else is left alone.
+#[doc(hidden)]
+pub fn intersection_operand(ty: String) -> String {
+    let mut depth = 0usize;
+    let mut chars = ty.chars().peekable();
+    let mut is_union = false;
+
+    while let Some(c) = chars.next() {
+        match c {
+            '(' | '[' | '{' | '<' => depth += 1,
+            ')' | ']' | '}' | '>' => depth = depth.saturating_sub(1),
+            // string literal types and property names
+            '"' | '\'' | '`' => {
+                while let Some(s) = chars.next() {
+                    match s {
+                        '\\' => {
+                            chars.next();
+                        }
+                        s if s == c => break,
+                        _ => (),
+                    }
+                }
+            }
+            // doc comments of inlined members
+            '/' if chars.peek() == Some(&'*') => {
+                let mut previous = ' ';
+                for s in chars.by_ref().skip(1) {
+                    if previous == '*' && s == '/' {
+                        break;
+                    }
+                    previous = s;
+                }
+            }
+            '|' if depth == 0 => {
+                is_union = true;
+                break;
+            }
+            _ => (),
+        }
+    }
+
+    if is_union {
+        format!("({ty})")
+    } else {
+        ty
+    }
+}
+
 #[doc(hidden)]
 #[derive(Copy, Clone, Debug, Hash, Eq, PartialEq, Ord, PartialOrd)]
 pub struct Dummy;
